@@ -181,6 +181,10 @@ const MAX_BANK_SIZE: i64 = 0x100_0000;
 /// How deeply blocks, macro invocations and imports may be nested (the code generator recurses once per level)
 const MAX_NESTING_DEPTH: usize = 64;
 
+/// How many blocks, macro invocations and imports a single pass may enter (macros that invoke each other a few
+/// times per level multiply quickly)
+const MAX_CONTAINERS_PER_PASS: usize = 0x10000;
+
 pub struct CodegenContext {
     tree: Arc<ParseTree>,
     options: CodegenOptions,
@@ -209,6 +213,15 @@ pub struct CodegenContext {
 
     /// How many blocks, macro invocations and imports enclose the token that is being emitted
     nesting_depth: usize,
+
+    /// How many blocks, macro invocations and imports were entered during the current pass
+    containers_entered: usize,
+
+    /// One of the two limits above was hit during the current pass: nothing descends any more
+    nesting_exhausted: bool,
+
+    /// ... and that happened while analysing code that is not assembled, so it ends with that analysis
+    exhausted_in_dummy: bool,
 
     /// The files whose tokens are being emitted right now because of an import (innermost last)
     import_stack: Vec<String>,
@@ -263,6 +276,9 @@ impl CodegenContext {
             next_macro_scope_id: 0,
             loop_iterations: 0,
             nesting_depth: 0,
+            containers_entered: 0,
+            nesting_exhausted: false,
+            exhausted_in_dummy: false,
             import_stack: vec![],
             test_elements: vec![],
             source_map: SourceMap::default(),
@@ -351,6 +367,8 @@ impl CodegenContext {
         self.pass_idx += 1;
         self.next_macro_scope_id = 0;
         self.loop_iterations = 0;
+        self.containers_entered = 0;
+        self.nesting_exhausted = false;
         self.changed.clear();
 
         log::trace!("\n* NEXT PASS ({}) *", self.pass_idx);
@@ -571,21 +589,40 @@ impl CodegenContext {
     fn emit_token(&mut self, token: &Token) -> CoreResult<()> {
         match Self::nesting_span(token) {
             Some(span) => {
-                // A macro that invokes itself, or a few thousand nested braces, would otherwise overflow the stack
-                if self.nesting_depth >= MAX_NESTING_DEPTH {
+                if self.nesting_exhausted {
+                    // The limit was reported (or, in code that is not assembled, silently reached) already: the rest of
+                    // the pass does not descend any more. Otherwise a macro that invokes itself twice would still be
+                    // expanded 2^64 times.
+                    return Ok(());
+                }
+                // A macro that invokes itself, or a few thousand nested braces, would otherwise overflow the stack;
+                // macros that invoke each other a few times per level would be expanded without end
+                let too_deep = self.nesting_depth >= MAX_NESTING_DEPTH;
+                if too_deep || self.containers_entered >= MAX_CONTAINERS_PER_PASS {
+                    self.nesting_exhausted = true;
                     if self.current_segment.as_ref().map(|s| s.as_str()) == Some("$dummy") {
                         // Greedy analysis of code that is not assembled (an untaken branch that invokes its own
-                        // macro again, for instance): just stop descending
+                        // macro again, for instance): just stop descending until the analysis is back in the program
+                        self.exhausted_in_dummy = true;
                         return Ok(());
                     }
-                    return Err(Diagnostic::error()
-                        .with_message(format!(
+                    let message = if too_deep {
+                        format!(
                             "blocks, macro invocations and imports may be nested at most {} levels deep",
                             MAX_NESTING_DEPTH
-                        ))
+                        )
+                    } else {
+                        format!(
+                            "a program may contain at most {} blocks, macro invocations and imports",
+                            MAX_CONTAINERS_PER_PASS
+                        )
+                    };
+                    return Err(Diagnostic::error()
+                        .with_message(message)
                         .with_labels(vec![span.to_label()])
                         .into());
                 }
+                self.containers_entered += 1;
                 self.nesting_depth += 1;
                 let result = self.emit_token_impl(token);
                 self.nesting_depth -= 1;
@@ -1412,6 +1449,11 @@ impl CodegenContext {
             }
             None => {
                 self.segments.remove(&Identifier::new("$dummy"));
+                if self.exhausted_in_dummy {
+                    // Back in the program: descend again
+                    self.exhausted_in_dummy = false;
+                    self.nesting_exhausted = false;
+                }
             }
         }
         self.current_segment = prev_segment;
